@@ -8,7 +8,9 @@
    callback performs the operations [beh k] (any operations on any handles, also on
    the handle being called back and on those later in the same batch).
    [ring]: with / without the io_uring control ring.  [strict]: which usage discipline
-   the guards of the script language enforce (Model/IoWatch.v, [api]).
+   the guards of the script language enforce (Model/IoWatch.v, [api]); false = the
+   documented rules of uv_poll, true = additionally one not-closed handle per number.
+   The model is that of src/unix/poll.c after the repairs 4af929c and 2caaa44.
 
    A poll callback event [ECb h status ev req efd rep hfd gs n] carries, besides what
    the user sees (handle, status, events), ghosts: [req] the mask of the latest
@@ -84,11 +86,29 @@ Proof.
 Qed.
 Print Assumptions C14_invariant_reachable.
 
-(* Kernel in sync at block.  Full statement: whenever epoll_pwait is called, every
+(* Kernel in sync at block: whenever epoll_pwait is called (any timeout), every
    descriptor in libuv's registry is in the kernel's interest set under its current
    open file with exactly the requested mask, and every kernel registration belongs
    to the current open file of the descriptor of a handle that has not been closed
-   (none is left from a closed handle, also when its open file lives on in a dup). *)
+   (none is left from a closed handle, also when its open file lives on in a dup).
+
+   Holds for ALL scripts of the script language, all oracle answers, callbacks doing
+   anything, with and without the control ring, both settings of [strict].  What the
+   script language demands of the user (operations violating it are not performed,
+   see [api] in Model/IoWatch.v) is exactly:
+     R1  no operation on a handle after uv_close / uv__io_close of it;
+     R2  a descriptor is not closed while an ACTIVE poll handle polls it (the rule
+         of the uv_poll documentation), nor while a stream-like watcher on it has not
+         been closed (libuv's streams own their descriptor);
+     R3  uv_poll_start / uv__io_start only on a descriptor number that is open;
+     R4  a stream-like watcher is initialised only on a number no other not-closed
+         handle uses, and no poll handle is initialised on a number a not-closed
+         stream-like watcher owns (uv__stream_open / uv_poll_init check uv__fd_exists).
+   Several poll handles on one descriptor, closing the descriptor of a stopped or
+   UV_EBADF-stopped handle before the handle, re-use of the number by new handles and
+   dups kept open elsewhere are all allowed.  (Before the repairs 4af929c and 2caaa44
+   of src/unix/poll.c this statement was refuted for [strict] = false by the scripts
+   [script_shared] and [script_ebadf] of Proofs/IoWatchProofsX.v.) *)
 Definition C14_in_sync (s : state) : Prop :=
   (forall fd i, reg s fd = Some i ->
      exists o, fdt s fd = Some o /\ ep s fd o = Some (h_pev (hget s i))) /\
@@ -96,56 +116,34 @@ Definition C14_in_sync (s : state) : Prop :=
      fdt s fd = Some o /\
      exists i, (i < length (hs s))%nat /\ h_closed (hget s i) = false /\ h_fd (hget s i) = fd).
 
-(* It does not hold of the current code for every script the documented rules of
-   uv_poll allow ([strict] = false: a descriptor may be closed as soon as no active
-   handle polls it; several poll handles may be initialised on one descriptor) ... *)
-Theorem C14_kernel_in_sync_at_block_refuted :
-  exists fdo pw beh os ring,
-  ~ Forall (fun e => match e with EPwait s _ => C14_in_sync s | _ => True end)
-           (snd (run fdo pw beh (sinit ring false) os)).
-Proof.
-  destruct sync_refuted_shared as [fdo [pw [beh [os [rng H]]]]]. exists fdo, pw, beh, os, rng.
-  intros X. apply H. eapply Forall_impl; [|exact X]. intros e He. destruct e; auto.
-  destruct He as [A B]. split; auto. intros fd o m Hm. destruct (B _ _ _ Hm) as [F [i [G1 [G2 G3]]]].
-  split; auto. exists i. split; auto. split; auto.
-Qed.
-Print Assumptions C14_kernel_in_sync_at_block_refuted.
-
-(* ... nor when the descriptor of a handle that libuv stopped with UV_EBADF is
-   closed before the handle (second, independent witness) ... *)
-Theorem C14_kernel_in_sync_at_block_refuted_ebadf :
-  exists fdo pw beh os ring,
-  ~ Forall (fun e => match e with EPwait s _ => C14_in_sync s | _ => True end)
-           (snd (run fdo pw beh (sinit ring false) os)).
-Proof.
-  destruct sync_refuted_ebadf as [fdo [pw [beh [os [rng H]]]]]. exists fdo, pw, beh, os, rng.
-  intros X. apply H. eapply Forall_impl; [|exact X]. intros e He. destruct e; auto.
-  destruct He as [A B]. split; auto. intros fd o m Hm. destruct (B _ _ _ Hm) as [F [i [G1 [G2 G3]]]].
-  split; auto. exists i. split; auto. split; auto.
-Qed.
-Print Assumptions C14_kernel_in_sync_at_block_refuted_ebadf.
-
-(* ... and holds, with and without the control ring, for every script that keeps to:
-   at most one handle that is not closed per descriptor number, and a descriptor is
-   closed only after the handles on it ([strict] = true); close + re-open with the
-   same number, dups kept open elsewhere, operations from callbacks, any oracle. *)
-Theorem C14_kernel_in_sync_at_block_partial :
-  forall fdo pw beh os ring,
+Theorem C14_kernel_in_sync_at_block :
+  forall fdo pw beh os ring strict,
   Forall (fun e => match e with EPwait s _ => C14_in_sync s | _ => True end)
-         (snd (run fdo pw beh (sinit ring true) os)).
+         (snd (run fdo pw beh (sinit ring strict) os)).
 Proof.
-  intros. eapply Forall_impl; [|apply (kernel_in_sync fdo pw beh os ring)].
+  intros. eapply Forall_impl; [|apply (kernel_in_sync fdo pw beh os ring strict)].
   intros e He. destruct e; auto. destruct He as [A B]. split; auto.
   intros fd o m Hm. destruct (B _ _ _ Hm) as [F [i [[G1 G2] G3]]]. split; auto. exists i. auto.
 Qed.
-Print Assumptions C14_kernel_in_sync_at_block_partial.
+Print Assumptions C14_kernel_in_sync_at_block.
 
-(* under that discipline no abort() of the registration protocol is reachable *)
+(* the scripts that refuted it before the repairs, now in sync: the started handle of
+   [script_shared] keeps its registration; nothing is left under the closed number
+   of [script_ebadf] *)
+Example C14_former_counterexamples_in_sync :
+  probe_watched (snd (run (fun _ => 5) (fun _ => []) (fun _ => []) (sinit true false) script_shared)) 1 5
+    = Some (Some ONLY_IN, ONLY_IN) /\
+  probe_entry (snd (run fdo_ebadf pw_ebadf beh_ebadf (sinit false false) script_ebadf)) 1 5 0%nat
+    = Some (None, None).
+Proof. split; [exact shared_in_sync|exact ebadf_in_sync]. Qed.
+Print Assumptions C14_former_counterexamples_in_sync.
+
+(* no abort() of the registration protocol is reachable *)
 Theorem C14_no_abort :
-  forall fdo pw beh os ring, aborted (fst (run fdo pw beh (sinit ring true) os)) = false.
+  forall fdo pw beh os ring strict, aborted (fst (run fdo pw beh (sinit ring strict) os)) = false.
 Proof.
-  intros. destruct (run fdo pw beh (sinit ring true) os) as [s' evs] eqn:H.
-  eapply run_KI in H; [|apply KI_init]. destruct H as [K _]. apply (k_abort _ K).
+  intros. destruct (run fdo pw beh (sinit ring strict) os) as [s' evs] eqn:H.
+  eapply run_KI in H; [|apply KI_init]. destruct H as [K _]. apply (k_abort _ _ K).
 Qed.
 Print Assumptions C14_no_abort.
 
